@@ -70,6 +70,10 @@ def generate(rng: random.Random, tier: str, seed: int) -> dict:
         in_place = True
     else:
         in_place = False
+    if fail is None and py_seed is None and not in_place and a["truth"][-1]["out"] == "float" and rng.random() < 0.08:
+        # a parameter built from a `model:` descriptor: a stateful object, new for every run; what the trace says about it
+        # must not depend on which run (or which memory address) it was
+        subject = dict(subject, nodes=subject["nodes"] + [{"processor": "SvUseModel", "parameters": {"model": "model:SvOnlineMean:bias=1.5"}}])
     b = gen.gen_pipeline(rng)
     equal_values = fail is None and py_seed is None and rng.random() < 0.06
     if equal_values:
